@@ -83,6 +83,14 @@ def base(which="B1"):
         ]
         return {"name": "top7", "inputs": ["a", "clk", "io"], "outputs": ["q", "io", "q2"], "clock": ["clk"], "items": items,
                 "models": models[:2]}
+    if which == "B8":  # latches that leave out type / control / initial value, before and after complete ones
+        items = [
+            {"kind": "latch", "in": "a", "out": "q0", "cname": "l_short"},
+            {"kind": "latch", "in": "a", "out": "q1", "type": "re", "ctrl": "clk", "init": 0, "cname": "l_full"},
+            {"kind": "latch", "in": "q0", "out": "q2", "type": "fe", "ctrl": "clk", "cname": "l_noinit"},
+            {"kind": "gate", "model": "BUF", "conns": [["I", "q2"], ["O", "y"]], "cname": "g"},
+        ]
+        return {"name": "top8", "inputs": ["a", "clk"], "outputs": ["q1", "y"], "items": items, "models": models[1:2]}
     raise KeyError(which)
 
 
@@ -156,7 +164,7 @@ engine_b.WORKERS[ID] = worker
 
 def cases(tier):
     out = []
-    for which in ("B1", "B2", "B3", "B4", "B5", "B6", "B7"):
+    for which in ("B1", "B2", "B3", "B4", "B5", "B6", "B7", "B8"):
         nitems = len(base(which)["items"])
         for order in itertools.permutations(range(nitems)):
             for models in ("after", "before", "none"):
